@@ -97,7 +97,9 @@ def gen_poll_script(rng, k, faults=True):
         end = ["float", rng.choice([2, 4])]
     else:
         end = ["str"]
-    return {"acts": acts, "end": end}
+    # a poll function may consume the list it is handed (pop / clear / reorder it): the list is its own
+    mut = rng.choice(["none", "none", "none", "none", "none", "clear", "pop", "reverse"])
+    return {"acts": acts, "end": end, "mut": mut}
 
 
 def gen(rng, faults=True):
@@ -163,6 +165,13 @@ def execute(p, chooser):
                     else:
                         d.yield_exception(exc(v))
                     det.emit("yielded", None, d.result)
+            mut = sc.get("mut", "none")
+            if mut == "clear":
+                del ds[:]
+            elif mut == "pop" and ds:
+                ds.pop()
+            elif mut == "reverse":
+                ds.reverse()
             e = sc["end"]
             if e[0] == "raise":
                 det.user("pollraise", e[1])
